@@ -6,6 +6,7 @@ The parser can be invoked standalone:
     python -m odml.tools.xmlparser file.odml
 """
 import csv
+import re
 import sys
 
 from os.path import basename
@@ -314,6 +315,10 @@ class XMLReader(object):
         :param string: XML string.
         :returns: a parsed odml.Document.
         """
+        # lxml refuses already decoded text that still carries an encoding declaration.
+        if isinstance(string, str):
+            string = re.sub(r"^\s*<\?xml[^>]*\?>", "", string, count=1)
+
         try:
             root = ET.XML(string, self.parser)
         except ET.XMLSyntaxError as exc:
